@@ -766,6 +766,14 @@ func (g *vfGW) apply(evFull string) {
 		g.fake(arg(1)).send(vfPruneRPC(arg(2), 0, vfPXEntries()...))
 	case "pub":
 		g.fake(arg(1)).send(vfPubRPC(g.pbMsg(arg(2))))
+	case "ip":
+		// ip:P:ADDR -- the node's connection to P is now seen under another remote address (as when a second
+		// connection over another path has replaced the first)
+		g.w.mu.Lock()
+		if c, ok := g.w.conns[[2]peer.ID{g.n.id(), g.pid(arg(1))}]; ok {
+			c.addr = vfIPAddr(arg(2))
+		}
+		g.w.mu.Unlock()
 	case "pubgraft":
 		// pubgraft:P:LABEL:T -- ONE RPC frame carrying a payload message and a GRAFT
 		rpc := vfGraftRPC(arg(3))
@@ -1194,6 +1202,12 @@ func (g *vfGW) canon() string {
 		sc := g.app[g.pid(name)]
 		g.appMu.Unlock()
 		fmt.Fprintf(&sb, "\n%s: conn=%v gated=%v app=%v %s", name, g.conn[name], g.gated[name], sc, g.fakes[name].streamStates())
+		// (the environment is part of the state: what the node would see if it looked at the connection again)
+		g.w.mu.Lock()
+		if c, ok := g.w.conns[[2]peer.ID{g.n.id(), g.pid(name)}]; ok && c.addr != nil {
+			fmt.Fprintf(&sb, " addr=%s", c.addr)
+		}
+		g.w.mu.Unlock()
 	}
 	for _, t := range vfSortedKeys(g.subs) {
 		fmt.Fprintf(&sb, "\nsubs[%s]=%d relays=%d", t, len(g.subs[t]), len(g.relays[t]))
